@@ -13,7 +13,9 @@ def coherent(chk, repo, clause):
     """Every modulus that reaches an intensity result is applied to coherently
     combined data: fields passed through field.reduce, or the complex field."""
     for key in ('wavefront.Wavefront.intensity', 'wavefront.Wavefront.insert'):
-        f, paths, _ = analyse(repo, key)
+        # (an accessor that hands the work to Wavefront.insert is followed into it)
+        f, paths, _ = analyse(repo, key, inline=['wavefront.Wavefront.insert'] if key.endswith('intensity') else (),
+                              types={('sym', 'self'): repo.cls('wavefront.Wavefront')})
         rets = returns(paths)
         ok, det, n = True, '', 0
         for p in rets:
